@@ -150,6 +150,41 @@ mod h {
         kani::cover!(idx > u32::MAX as u64, "COV:C15.list_get.huge_index_reached");
     }
 
+    static mut ZST_CLONES: u32 = 0;
+    unsafe extern "C" fn clone_zst(_dst: *mut (), _src: *const ()) {
+        unsafe {
+            ZST_CLONES += 1;
+        }
+    }
+
+    /// script-side get on a list of zero-sized tracked elements: an in-range get hands out one new
+    /// element, so the element's clone function runs exactly once ("every element is cloned and
+    /// dropped in balance"); out of range clones nothing
+    #[kani::proof]
+    #[kani::unwind(9)]
+    fn c15_k2_list_get_zst_clones() {
+        unsafe {
+            ZST_CLONES = 0;
+        }
+        let l = ErasedList::new(VTable { size: 0, align: 1, clone_fn: Some(clone_zst), drop_fn: None, eq_fn: eq_u32 });
+        let n: usize = kani::any();
+        kani::assume(n <= 2);
+        {
+            let mut g = l.0.lock().unwrap();
+            g.len = n;
+            g.fix();
+        }
+        let idx: u64 = kani::any();
+        kani::assume(idx <= 2);
+        let mut out = RotoOption::<()>([0xAAAA_AAAA_AAAA_AAAA; 2], core::marker::PhantomData);
+        unsafe { ffi::list_get(&mut out as *mut RotoOption<()>, l.clone(), idx) };
+        let tag = unsafe { *(&out as *const RotoOption<()> as *const u8) };
+        let in_range = idx < n as u64;
+        assert!(tag == if in_range { 0 } else { 1 }, "OBL:C15.list_get.zst_tag_some_iff_in_range");
+        assert!(unsafe { ZST_CLONES } == in_range as u32, "OBL:C15.list_get.zst_element_cloned_exactly_once_per_successful_get");
+        kani::cover!(in_range && idx == 1, "COV:C15.list_get.zst_in_range_reached");
+    }
+
     #[kani::proof]
     #[kani::unwind(9)]
     fn canary_c15_k2_erased_eq() {
